@@ -162,6 +162,10 @@ fn judge(run: &Run, gp: &PragProblem, parsed: &PProblem, case_seed: u64, k: u64,
                             // the tag findings recorded under C03 are not re-reported here
                             for is in rep.issues.iter().filter(|i| !i.rule.starts_with("place-tag")) {
                                 let sig = format!("C07|invalid-solution|{}|phase={phase}", is.signature());
+                                if let Some(what) = run.known_for(is.prop, &is.signature()) {
+                                    run.known_hit(&sig, &format!("(listed under {}) {what}", is.prop));
+                                    continue;
+                                }
                                 if seen.insert(sig.clone()) {
                                     run.violation(&sig, &format!("quota fired at poll {k}: {}", clip(&is.detail, 300)), art(json!({"rule": is.rule}), Some(&solution)));
                                 }
